@@ -34,6 +34,7 @@ func runC06(p *eng.Prog, r *eng.Report, tier string) {
 	c15HandlerEncoderStays(c, "C06.33")
 	c15OpenIsASetRequest(c, "C06.34")
 	c06ReceiptRegistrations(c, "C06.35")
+	c06WaiterIDIsTheWireID(c, "C06.36")
 	c.r.Floor("C06.31", "blocking channel operations", lockHeldAcrossChannelOp(c, "C06.31", ""), 8)
 	c.r.Floor("C06.30", "closers received from a channel", receivedCloserNotDropped(c, "C06.30", func(f *eng.Fn) bool { return true }), 3)
 	c06Handoff(c)
@@ -526,4 +527,46 @@ func c06ReceiptRegistrations(c *cx, id string) {
 		why = "missing " + strings.Join(missing, ", ") + "; extra " + strings.Join(extra, ", ") + " " + undecided
 	}
 	c.r.Check(id, f, "registrations of the receipt handler", "T: received for all five message types, request for the four that are not error", f.Pos(), why == "", why)
+}
+
+// c06WaiterIDIsTheWireID (C06.36 / C08.26): the tracked senders register their
+// waiter under the id the stanza goes out with. When the caller's start
+// element has no id, or an empty one, an id is generated and written into the
+// element, and that same id is handed to sendResp: no path reaches the
+// sendResp call with the id variable possibly empty (every path crosses the
+// edge id != "" or the generation). A sender that generates an id only when
+// the attribute is MISSING registers an explicit id="" under the empty key:
+// any id-less error stanza of the peer is then delivered to that waiter
+// instead of the handler.
+func c06WaiterIDIsTheWireID(c *cx, id string) {
+	n := 0
+	for _, name := range []string{"(*Session).SendIQ", "(*Session).SendMessage", "(*Session).SendPresence"} {
+		f := c.fn(id, "", name)
+		if f == nil {
+			continue
+		}
+		g := f.Graph()
+		cut := eng.Cut{}
+		for _, ce := range g.EdgesMatching("!eq(xmpp.getIDTyp(*)#2,\"\")") {
+			cut[ce.E] = true
+		}
+		generated := func(q eng.Point, nd ast.Node) bool {
+			as, ok := nd.(*ast.AssignStmt)
+			if !ok {
+				return false
+			}
+			for _, r := range as.Rhs {
+				if cl, ok := ast.Unparen(r).(*ast.CallExpr); ok && strings.HasPrefix(f.CalleeID(cl), "internal/attr.Random") {
+					return true
+				}
+			}
+			return false
+		}
+		for _, cl := range f.Calls("xmpp.Session.sendResp") {
+			n++
+			pt, _ := g.Where(cl)
+			c.r.Check(id, f, "id the waiter is registered under", "G: every path to sendResp crosses id != \"\" or generates the id", cl.Pos(), !g.Reachable(g.Entry(), pt, cut, generated), "sendResp can be reached with an empty id: the waiter is registered under \"\" while the wire carries a generated id")
+		}
+	}
+	c.r.Floor(id, "sendResp calls of the tracked senders", n, 3)
 }
